@@ -404,6 +404,54 @@ pub fn run_path(cfg: &Cfg, path: &PathRec<Post>, record: bool) -> (PathResult, V
                         w.taken.insert(arg_c, Client::take(c));
                     }
                 }
+                "TakeBusy" => {
+                    // another thread sits inside the registry (Debug-printing a Mutex holds its lock while the
+                    // data is written): the take has to wait for it and still unregister the client
+                    if let Some(c) = w.held.remove(&arg_c) {
+                        let gate = std::sync::Arc::new((Mutex::new((false, false)), std::sync::Condvar::new()));
+                        struct ParkWriter(std::sync::Arc<(Mutex<(bool, bool)>, std::sync::Condvar)>);
+                        impl std::fmt::Write for ParkWriter {
+                            fn write_str(&mut self, s: &str) -> std::fmt::Result {
+                                if s.contains("data") {
+                                    let (m, cv) = &*self.0;
+                                    let mut g = m.lock().unwrap();
+                                    g.0 = true;
+                                    cv.notify_all();
+                                    while !g.1 {
+                                        g = cv.wait(g).unwrap();
+                                    }
+                                }
+                                Ok(())
+                            }
+                        }
+                        let pool2 = w.pool.clone();
+                        let g2 = gate.clone();
+                        let printer = std::thread::spawn(move || {
+                            use std::fmt::Write;
+                            let mut pw = ParkWriter(g2);
+                            let _ = write!(pw, "{:?}", pool2.manager().statement_caches);
+                        });
+                        {
+                            let (m, cv) = &*gate;
+                            let mut g = m.lock().unwrap();
+                            let t0 = Instant::now();
+                            while !g.0 && t0.elapsed() < Duration::from_secs(2) {
+                                g = cv.wait_timeout(g, Duration::from_millis(50)).unwrap().0;
+                            }
+                        }
+                        let taker = std::thread::spawn(move || Client::take(c));
+                        std::thread::sleep(Duration::from_millis(3));
+                        {
+                            let (m, cv) = &*gate;
+                            m.lock().unwrap().1 = true;
+                            cv.notify_all();
+                        }
+                        let _ = printer.join();
+                        if let Ok(cw) = taker.join() {
+                            w.taken.insert(arg_c, cw);
+                        }
+                    }
+                }
                 _ => {}
             }
             n += 1;
